@@ -1,5 +1,6 @@
 import Driver.GraphJson
 import SynKitModel.ITS
+import SynKitModel.RsmiGraph
 open Lean SynKit SynKit.ITS
 namespace Driver.ITS
 
@@ -23,6 +24,9 @@ def natList (j : Json) (k : String) : Except String (List Nat) := do
 * `its.decompose {its}` → `{G, H}` | `{error}`
 * `its.rc {its, element_key?, bond_key?, standard_key?, disconnected?, keep_mtg?}` → graph
 * `its.extractK {its, k}` → graph;  `its.expand {its, seeds, k}` → node list
+* `its.rsmiGraphs {its}` → `{keep: [atom maps, sorted], reactant: graph, product: graph}` | `{error}`
+  (the `preserve_atom_maps` list and the two graphs `its_to_rsmi` hands to `GraphToMol`)
+* `its.smiGraph {graph, keep}` → graph | `{error}` (the graph step of `graph_to_smi`)
 * `spec.its.rc {its, rc}`, `spec.its.union {G, H, its}`, `spec.its.sameMol {A, B}` → bool -/
 def handle : Driver.Handler := fun cmd j =>
   match cmd with
@@ -49,6 +53,18 @@ def handle : Driver.Handler := fun cmd j =>
     let I ← Driver.getGraph j "its"
     let xs := expand I (← natList j "seeds") (← Driver.getNat j "k")
     pure (toJson (xs.toArray.qsort (· < ·)))
+  | "its.rsmiGraphs" => some do
+    let I ← Driver.getGraph j "its"
+    if rsmiDefined I then
+      let r := rsmiGraphs I
+      pure (Json.mkObj [("keep", toJson ((rcHydrogenMaps I).toArray.qsort (· < ·))),
+        ("reactant", Driver.graphToJson r.1), ("product", Driver.graphToJson r.2)])
+    else pure (Json.mkObj [("error", "unsupported")])
+  | "its.smiGraph" => some do
+    let g ← Driver.getGraph j "graph"
+    let keep ← natList j "keep"
+    if smiDefined g keep then pure (Driver.graphToJson (smiGraph g keep))
+    else pure (Json.mkObj [("error", "unsupported")])
   | "spec.its.rc" => some do
     pure (toJson (rcSpec (← Driver.getGraph j "its") (← Driver.getGraph j "rc")))
   | "spec.its.union" => some do
